@@ -1,5 +1,554 @@
 import DesperModel.Dict
 import DesperModel.Proto
+/-
+  Model of `desper/logic/coroutines.py` (CoroutineProcessor, CoroutinePromise).
+
+  Mirrors, statement by statement (line numbers of the tree after the `fix:` commits 6ed741d —
+  D10, start right after kill — and 4dad2ae — D29, self-kill followed by return):
+    __init__   coroutines.py:113-121
+    start      coroutines.py:123-149   (a pending kill is cancelled; a paused generator's heap entry
+                                        is voided and the generator queued as runnable)
+    kill       coroutines.py:151-175
+    state      coroutines.py:177-197
+    process    coroutines.py:199-262   (wake-up loop 205-224, rotation 231, run loop 234-262)
+
+  Python objects and how they appear here
+    * `_generators`, `_promises` (dicts that are only read with get / written / deleted, never
+      iterated) are partial functions `Gen → Option _`; `del d[k]` on a missing key is
+      `Outcome.raised "KeyError"`, never a default.
+    * `_kill_queue` (a set, never iterated) is a predicate `Gen → Bool`.
+    * `_active_queue` is the deque itself: `List (Option Gen)`, `none` is the `None` sentinel.
+    * `_wait_queue` is the heap *as a bag*: `heapq` pops a record with minimal deadline; which one
+      among equal deadlines is not specified by the property and is resolved by a `hint` (the order
+      in which the implementation ran the woken generators).  Every hint is valid by construction
+      (it is used only as a tie-break of a sort by deadline); theorems quantify over all hints.
+    * a `_WaitingGenerator` record is `Rec`; `record.generator = None` (voided by `start`) is
+      `gen := none`.  Record identity is by the generator it carries (unique by the invariant
+      proved in DesperProofs/Lemmas/CoroInv.lean).
+    * a generator object is a *script*: a list of steps, each a list of in-body actions
+      (`start h`, `kill h`, `state h` — also of itself; exceptions are caught by the body and
+      logged) followed by `yield w?` or `return v?`.  `pc`, `fin` are the generator object's own
+      state (its frame), which survives kill/start.
+    * times are `Int` in units of 1/8 s (the harness feeds `k/8.0`, exact in binary).
+
+  Out of scope (stated in the plug-ins' ASSUMPTIONS): bodies that call `process` recursively,
+  bodies that raise, yielding non-numbers.
+-/
 namespace Desper.Coro
-def runScenario (_lines : List String) : List String := ["not-implemented"]
+open Desper
+
+abbrev Gen := Nat
+
+inductive Act where
+  | start (g : Gen)
+  | kill (g : Gen)
+  | state (g : Gen)
+deriving Repr, DecidableEq, Inhabited
+
+inductive Fin where
+  | yield (w : Option Int)
+  | ret (v : Option Int)
+deriving Repr, DecidableEq, Inhabited
+
+structure Step where
+  acts : List Act
+  fin : Fin
+deriving Repr, DecidableEq, Inhabited
+
+abbrev Script := List Step
+
+/-- `CoroutineState` : coroutines.py:18-22 -/
+inductive CState where
+  | terminated
+  | paused
+  | active
+deriving Repr, DecidableEq, Inhabited
+
+inductive Outcome where
+  | ok
+  | raised (e : String)
+  | state (c : CState)
+  | outOfFuel
+deriving Repr, DecidableEq, Inhabited
+
+/-- `_WaitingGenerator` : coroutines.py:52-60 -/
+structure Rec where
+  gen : Option Gen
+  deadline : Int
+deriving Repr, DecidableEq, Inhabited
+
+inductive Entry where
+  /-- the body of step `i` of generator `g` starts executing -/
+  | step (g : Gen) (i : Nat)
+  /-- result of an in-body action -/
+  | act (g : Gen) (i : Nat) (a : Act) (r : Outcome)
+  | yielded (g : Gen) (w : Option Int)
+  /-- `g` returned `v`, stored in promise `p` (none: no promise was found) -/
+  | returned (g : Gen) (v : Option Int)
+  | stored (g : Gen) (p : Nat) (v : Option Int)
+  /-- a successful `start` (handing out promise `p`) / `kill`, from outside or from a body -/
+  | started (g : Gen) (p : Nat)
+  | killed (g : Gen)
+  /-- result of a top-level operation -/
+  | res (r : Outcome)
+  | value (vs : List (Option Int))
+  | states (l : List CState)
+deriving Repr, DecidableEq, Inhabited
+
+structure Universe where
+  /-- the generator objects of the program; `none`: not a generator object -/
+  script : Gen → Option Script
+
+structure St where
+  gens : Gen → Option (Option Int) := fun _ => none
+  active : List (Option Gen) := [none]
+  waiting : List Rec := []
+  kill : Gen → Bool := fun _ => false
+  promises : Gen → Option Nat := fun _ => none
+  timer : Int := 0
+  /-- generator frames: next step to execute, exhausted flag -/
+  pc : Gen → Nat := fun _ => 0
+  fin : Gen → Bool := fun _ => false
+  /-- promise objects: id counter, values (`None` initially), who they were handed out for -/
+  nextPromise : Nat := 0
+  values : Nat → Option Int := fun _ => none
+  handed : List (Nat × Gen) := []
+  /-- newest first -/
+  log : List Entry := []
+
+instance : Inhabited St := ⟨{}⟩
+
+/-- coroutines.py:113-121 -/
+def init : St := {}
+
+def upd {α : Type} (f : Gen → α) (g : Gen) (v : α) : Gen → α :=
+  fun x => if x = g then v else f x
+
+def St.push (s : St) (e : Entry) : St := { s with log := e :: s.log }
+
+/-- `state` : coroutines.py:177-197.  `Except.error` is the raised exception. -/
+def stateOf (U : Universe) (s : St) (g : Gen) : Except String CState :=
+  match U.script g with
+  | none => .error "TypeError"                       -- :186-187
+  | some _ =>
+    match s.gens g with                              -- :189
+    | none => .ok .terminated                        -- :190-191
+    | some w =>
+      if s.kill g then .ok .terminated               -- :190-191
+      else match w with
+        | none => .ok .active                        -- :194-195
+        | some _ => .ok .paused                      -- :196-197
+
+/-- `waiting_gen.generator = None` on the record of `g` -/
+def voidRec (g : Gen) (r : Rec) : Rec :=
+  if r.gen = some g then { r with gen := none } else r
+
+/-- the tail of `start` : coroutines.py:146-149 -/
+def startCommit (s : St) (g : Gen) : St × Outcome :=
+  let p := s.nextPromise
+  ({ s with gens := upd s.gens g (some none),          -- :146
+            promises := upd s.promises g (some p),     -- :147-148
+            nextPromise := p + 1, handed := (p, g) :: s.handed,
+            log := .started g p :: s.log }, .ok)
+
+/-- `start` : coroutines.py:123-149 -/
+def start (U : Universe) (s : St) (g : Gen) : St × Outcome :=
+  match stateOf U s g with                           -- :132
+  | .error e => (s, .raised e)
+  | .ok st =>
+    if st ≠ .terminated then (s, .raised "ValueError")   -- :134-135
+    else if s.kill g then                            -- :137
+      let s := { s with kill := upd s.kill g false }   -- :139
+      match s.gens g with                            -- :140
+      | none => (s, .raised "KeyError")
+      | some none => startCommit s g
+      | some (some _) =>                             -- :141-143
+        startCommit { s with waiting := s.waiting.map (voidRec g), active := s.active ++ [some g] } g
+    else startCommit { s with active := s.active ++ [some g] } g   -- :144-145
+
+/-- `kill` : coroutines.py:151-175 -/
+def kill (U : Universe) (s : St) (g : Gen) : St × Outcome :=
+  match U.script g with
+  | none => (s, .raised "TypeError")                 -- :167-168
+  | some _ =>
+    if (s.gens g).isNone || s.kill g then (s, .raised "ValueError")   -- :171-173
+    else ({ s with kill := upd s.kill g true, log := .killed g :: s.log }, .ok)   -- :175
+
+/-- an in-body action: the body catches the exception and carries on -/
+def execAct (U : Universe) (g : Gen) (i : Nat) (s : St) (a : Act) : St :=
+  match a with
+  | .start h => let (s', o) := start U s h; s'.push (.act g i a o)
+  | .kill h => let (s', o) := kill U s h; s'.push (.act g i a o)
+  | .state h =>
+    match stateOf U s h with
+    | .ok c => s.push (.act g i a (.state c))
+    | .error e => s.push (.act g i a (.raised e))
+
+def execActs (U : Universe) (g : Gen) (i : Nat) (s : St) (acts : List Act) : St :=
+  acts.foldl (execAct U g i) s
+
+inductive Next where
+  | yield (w : Option Int)
+  | stop (v : Option Int)
+deriving Repr, DecidableEq, Inhabited
+
+/-- `next(gen)` on the generator object `g` -/
+def runBody (U : Universe) (s : St) (g : Gen) : St × Next :=
+  if s.fin g then (s, .stop none)                    -- exhausted generator: StopIteration(None)
+  else
+    let i := s.pc g
+    match ((U.script g).getD [])[i]? with
+    | none => ({ s with fin := upd s.fin g true }, .stop none)   -- body falls off its end
+    | some st =>
+      let s := { s with pc := upd s.pc g (i + 1), log := .step g i :: s.log }
+      let s := execActs U g i s st.acts
+      match st.fin with
+      | .yield w => (s.push (.yielded g w), .yield w)
+      | .ret v => ({ s with fin := upd s.fin g true, log := .returned g v :: s.log }, .stop v)
+
+/-! ### process : coroutines.py:199-262 -/
+
+/-- position of the record's generator in the hint (tie-break among equal deadlines) -/
+def rank (hint : List Gen) (r : Rec) : Nat :=
+  match r.gen with
+  | none => 0
+  | some g => hint.idxOf g
+
+def recLe (hint : List Gen) (a b : Rec) : Bool :=
+  a.deadline < b.deadline || (a.deadline == b.deadline && rank hint a ≤ rank hint b)
+
+def insertRec (hint : List Gen) (r : Rec) : List Rec → List Rec
+  | [] => [r]
+  | x :: xs => if recLe hint r x then r :: x :: xs else x :: insertRec hint r xs
+
+/-- the order in which `heappop` hands out the due records -/
+def sortRecs (hint : List Gen) (l : List Rec) : List Rec :=
+  l.foldr (insertRec hint) []
+
+/-- body of the wake-up loop for one popped record : coroutines.py:210-221 -/
+def wakeOne (s : St) (r : Rec) : St × Outcome :=
+  match r.gen with
+  | none => (s, .ok)                                 -- :211-212 entry voided by start
+  | some g =>
+    if s.kill g then                                 -- :215
+      match s.gens g with
+      | none => (s, .raised "KeyError")              -- :216
+      | some _ =>
+        let s := { s with gens := upd s.gens g none, kill := upd s.kill g false }   -- :216-217
+        match s.promises g with
+        | none => (s, .raised "KeyError")            -- :218
+        | some _ => ({ s with promises := upd s.promises g none }, .ok)
+    else
+      ({ s with active := s.active ++ [some g], gens := upd s.gens g (some none) }, .ok)  -- :220-221
+
+def wakeAll (s : St) : List Rec → St × Outcome
+  | [] => (s, .ok)
+  | r :: rs =>
+    match wakeOne s r with
+    | (s', .ok) => wakeAll s' rs
+    | (s', o) => ({ s' with waiting := rs ++ s'.waiting }, o)
+
+/-- coroutines.py:205-224 -/
+def wakePhase (s : St) (dt : Int) (hint : List Gen) : St × Outcome :=
+  if s.waiting.isEmpty then (s, .ok)                 -- :205
+  else
+    let t := s.timer + dt                            -- :206
+    let due := sortRecs hint (s.waiting.filter (fun r => r.deadline ≤ t))   -- :208-210
+    let rest := s.waiting.filter (fun r => !decide (r.deadline ≤ t))
+    match wakeAll { s with timer := t, waiting := rest } due with
+    | (s', .ok) => (if s'.waiting.isEmpty then { s' with timer := 0 } else s', .ok)  -- :223-224
+    | r => r
+
+/-- `deque.rotate(-1)` -/
+def rotl {α : Type} : List α → List α
+  | [] => []
+  | h :: t => t ++ [h]
+
+/-- `wait is not None and wait > 0` : coroutines.py:256 -/
+def positive : Option Int → Bool
+  | some n => decide (n > 0)
+  | none => false
+
+/-- result of one iteration of the run loop -/
+inductive Iter where
+  /-- the sentinel is in front: the loop ends -/
+  | exit
+  | next (s : St)
+  | raise (s : St) (e : String)
+
+/-- one iteration of `while self._active_queue[0] is not None` : coroutines.py:234-262 -/
+def iter (U : Universe) (s : St) : Iter :=
+  match s.active with
+  | [] => .raise s "IndexError"                      -- :234
+  | none :: _ => .exit
+  | some g :: tl =>                                  -- :235
+    if s.kill g then                                 -- :238
+      match s.gens g with
+      | none => .raise s "KeyError"                  -- :239
+      | some _ =>
+        let s := { s with gens := upd s.gens g none, kill := upd s.kill g false,
+                          active := tl }             -- :239-241
+        match s.promises g with
+        | none => .raise s "KeyError"                -- :242
+        | some _ => .next { s with promises := upd s.promises g none }   -- :242-243
+    else
+      match runBody U s g with                       -- :246
+      | (s, .stop v) =>
+        match s.active with                          -- :248 popleft
+        | [] => .raise s "IndexError"
+        | none :: tl' => .raise { s with active := tl' } "KeyError"
+        | some g' :: tl' =>
+          let s := { s with active := tl' }
+          match s.gens g' with
+          | none => .raise s "KeyError"              -- :249
+          | some _ =>
+            let s := { s with gens := upd s.gens g' none, kill := upd s.kill g' false }  -- :249-250
+            match s.promises g' with
+            | none => .raise s "KeyError"            -- :251
+            | some p =>
+              .next { s with values := fun q => if q = p then v else s.values q,
+                             promises := upd s.promises g' none,
+                             log := .stored g' p v :: s.log }   -- :251-252
+      | (s, .yield w) =>
+        if positive w then                           -- :256
+          let d := w.getD 0 + s.timer                -- :257
+          .next { s with waiting := ⟨some g, d⟩ :: s.waiting,     -- :258
+                         gens := upd s.gens g (some (some d)),    -- :259
+                         active := s.active.tail }                -- :260
+        else .next { s with active := rotl s.active }             -- :262
+
+/-- the run loop : coroutines.py:234-262.  Fuel: the number of iterations is bounded by the
+number of entries in front of the sentinel (proved: never exhausted). -/
+def loop (U : Universe) : Nat → St → St × Outcome
+  | 0, s => (s, .outOfFuel)
+  | fuel + 1, s =>
+    match iter U s with
+    | .exit => (s, .ok)
+    | .raise s e => (s, .raised e)
+    | .next s => loop U fuel s
+
+/-- `process` : coroutines.py:199-262 -/
+def process (U : Universe) (s : St) (dt : Int) (hint : List Gen) : St × Outcome :=
+  match wakePhase s dt hint with
+  | (s, .ok) =>
+    let s := { s with active := rotl s.active }      -- :231
+    loop U (s.active.length + 1) s
+  | r => r
+
+/-! ### top-level operations -/
+
+inductive Op where
+  | start (g : Gen)
+  | kill (g : Gen)
+  | state (g : Gen)
+  | process (dt : Int) (hint : List Gen)
+  | value (g : Gen)
+deriving Repr, DecidableEq, Inhabited
+
+def execOp (U : Universe) (s : St) : Op → St
+  | .start g => let (s', o) := start U s g; s'.push (.res o)
+  | .kill g => let (s', o) := kill U s g; s'.push (.res o)
+  | .state g =>
+    match stateOf U s g with
+    | .ok c => s.push (.res (.state c))
+    | .error e => s.push (.res (.raised e))
+  | .process dt hint => let (s', o) := process U s dt hint; s'.push (.res o)
+  | .value g =>
+    s.push (.value ((s.handed.reverse.filter (fun p => p.2 = g)).map (fun p => s.values p.1)))
+
+def run (U : Universe) (s : St) (ops : List Op) : St :=
+  ops.foldl (execOp U) s
+
+/-! ### vocabulary of the theorems (DesperProofs/Props/C08.lean, C09.lean) -/
+
+/-- the generator object `g` still has code to run: `next(g)` executes a step -/
+def hasCode (U : Universe) (s : St) (g : Gen) : Prop :=
+  s.fin g = false ∧ s.pc g < ((U.script g).getD []).length
+
+instance (U : Universe) (s : St) (g : Gen) : Decidable (hasCode U s g) := by
+  unfold hasCode; infer_instance
+
+/-- the step that `next(g)` would execute now -/
+def curStep (U : Universe) (s : St) (g : Gen) : Option Step :=
+  ((U.script g).getD [])[s.pc g]?
+
+/-- `g` is in the deque when the run loop of a `process(dt)` call starts: it is queued as
+runnable, or its wait elapses in this call and no kill is pending for it -/
+def runnableIn (s : St) (dt : Int) (g : Gen) : Prop :=
+  some g ∈ s.active ∨ ∃ d, (⟨some g, d⟩ : Rec) ∈ s.waiting ∧ d ≤ s.timer + dt ∧ s.kill g = false
+
+def isStarted (g : Gen) : Entry → Bool
+  | .started g' _ => g' == g
+  | _ => false
+
+/-- number of successful `start`s of `g` so far, from outside or from a body -/
+def nStart (s : St) (g : Gen) : Nat := s.log.countP (isStarted g)
+
+/-- `state g` reads TERMINATED for the generator object `g`: unknown to the processor, or marked -/
+def Dead (g : Gen) (s : St) : Prop := s.gens g = none ∨ s.kill g = true
+
+/-- the most recent successful `start` (`some true`) or `kill` (`some false`) of `g` in a log
+(newest first); `none`: never started -/
+def lastLife (g : Gen) : List Entry → Option Bool
+  | [] => none
+  | .started g' _ :: t => if g' = g then some true else lastLife g t
+  | .killed g' :: t => if g' = g then some false else lastLife g t
+  | _ :: t => lastLife g t
+
+/-- the promise handed out by the most recent successful `start` of `g` in a log (newest first) -/
+def lastPromise (g : Gen) : List Entry → Option Nat
+  | [] => none
+  | .started g' p :: t => if g' = g then some p else lastPromise g t
+  | _ :: t => lastPromise g t
+
+/-- the generators whose bodies executed a step, newest first (the execution log of the bodies) -/
+def stepGens (log : List Entry) : List Gen :=
+  log.filterMap fun e => match e with
+    | .step g _ => some g
+    | _ => none
+
+/-- the dt accumulated by a list of top-level operations -/
+def elapsed : List Op → Int
+  | [] => 0
+  | .process dt _ :: rest => dt + elapsed rest
+  | _ :: rest => elapsed rest
+
+def nonnegDt : Op → Prop
+  | .process dt _ => 0 ≤ dt
+  | _ => True
+
+/-! ### line protocol -/
+open Proto
+
+def optInt? (t : String) : Option (Option Int) :=
+  if t = "N" then some none else t.toInt?.map some
+
+def parseAct : List String → Option Act
+  | ["start", g] => g.toNat?.map .start
+  | ["kill", g] => g.toNat?.map .kill
+  | ["state", g] => g.toNat?.map .state
+  | _ => none
+
+def splitOnTok (sep : String) (toks : List String) : List (List String) :=
+  toks.foldr (fun t acc =>
+      if t = sep then [] :: acc else match acc with
+        | [] => [[t]]
+        | g :: gs => (t :: g) :: gs) [[]]
+
+/-- `act ; act ; yield w` -/
+def parseStep (toks : List String) : Option Step :=
+  let parts := (splitOnTok ";" toks).filter (· ≠ [])
+  match parts.reverse with
+  | [] => none
+  | last :: revActs =>
+    match revActs.reverse.mapM parseAct with
+    | none => none
+    | some acts =>
+      match last with
+      | ["yield", w] => (optInt? w).map fun w => ⟨acts, .yield w⟩
+      | ["ret", v] => (optInt? v).map fun v => ⟨acts, .ret v⟩
+      | _ => none
+
+def parseScript (toks : List String) : Option Script :=
+  ((splitOnTok "|" toks).filter (· ≠ [])).mapM parseStep
+
+def parseOp (hint : List Gen) : List String → Option Op
+  | ["start", g] => g.toNat?.map .start
+  | ["kill", g] => g.toNat?.map .kill
+  | ["state", g] => g.toNat?.map .state
+  | ["value", g] => g.toNat?.map .value
+  | ["process", dt] => dt.toInt?.map (.process · hint)
+  | _ => none
+
+structure Parsed where
+  scripts : List Script := []
+  hints : List (List Gen) := []
+  /-- reversed; process ops carry the index of their hint -/
+  ops : List (List String) := []
+  bad : Bool := false
+
+def parseLine (p : Parsed) (line : String) : Parsed :=
+  match tokens line with
+  | "gen" :: g :: ":" :: rest =>
+    match g.toNat?, parseScript rest with
+    | some g, some sc =>
+      if g = p.scripts.length then { p with scripts := p.scripts ++ [sc] } else { p with bad := true }
+    | _, _ => { p with bad := true }
+  | ["hint", l] =>
+    match natList? l with
+    | some h => { p with hints := p.hints ++ [h] }
+    | none => { p with bad := true }
+  | "op" :: rest => { p with ops := rest :: p.ops }
+  | [] => p
+  | _ => { p with bad := true }
+
+/-- attach the k-th hint to the k-th process op -/
+def buildOps : List (List String) → List (List Gen) → Option (List Op)
+  | [], _ => some []
+  | toks :: rest, hints =>
+    match toks with
+    | ["process", _] =>
+      match parseOp (hints.headD []) toks, buildOps rest hints.tail with
+      | some op, some ops => some (op :: ops)
+      | _, _ => none
+    | _ =>
+      match parseOp [] toks, buildOps rest hints with
+      | some op, some ops => some (op :: ops)
+      | _, _ => none
+
+def showOptInt : Option Int → String
+  | none => "N"
+  | some n => toString n
+
+def showCState : CState → String
+  | .terminated => "T"
+  | .paused => "P"
+  | .active => "A"
+
+def showOutcome : Outcome → String
+  | .ok => "ok"
+  | .raised e => s!"raised {e}"
+  | .state c => showCState c
+  | .outOfFuel => "hang"
+
+def showAct : Act → String
+  | .start g => s!"start {g}"
+  | .kill g => s!"kill {g}"
+  | .state g => s!"state {g}"
+
+def showEntry : Entry → Option String
+  | .step g i => some s!"step {g} {i}"
+  | .act g i a r => some s!"act {g} {i} {showAct a} {showOutcome r}"
+  | .res r => some s!"res {showOutcome r}"
+  | .value vs => some s!"res value {joinList (vs.map showOptInt)}"
+  | .states l => some s!"states {joinList (l.map showCState)}"
+  | _ => none
+
+def Parsed.universe (p : Parsed) : Universe :=
+  { script := fun g => p.scripts[g]? }
+
+/-- what the harness sees after every top-level operation: the state of every generator -/
+def statesOf (U : Universe) (n : Nat) (s : St) : List CState :=
+  (List.range n).map fun g =>
+    match stateOf U s g with
+    | .ok c => c
+    | .error _ => .terminated
+
+/-- generators the processor still references in any of its tables -/
+def retained (n : Nat) (s : St) : List Gen :=
+  (List.range n).filter fun g =>
+    (s.gens g).isSome || s.active.contains (some g) || s.waiting.any (fun r => r.gen = some g)
+      || s.kill g || (s.promises g).isSome
+
+def runScenario (lines : List String) : List String :=
+  let p := lines.foldl parseLine {}
+  if p.bad then ["bad-op"] else
+  match buildOps p.ops.reverse p.hints with
+  | none => ["bad-op"]
+  | some ops =>
+    let U := p.universe
+    let n := p.scripts.length
+    let s := ops.foldl (fun s op => let s' := execOp U s op; s'.push (.states (statesOf U n s'))) init
+    s.log.reverse.filterMap showEntry ++ [s!"retained {showNats (retained n s)}"]
+
 end Desper.Coro
